@@ -358,7 +358,9 @@ impl Be for Fjall {
                 .collect();
             out.push((name, kv));
         }
-        dump(out)
+        let s = dump(out);
+        if !close_db(db) { return "raw-close-hung".into(); }
+        s
     }
 }
 
@@ -718,6 +720,18 @@ fn key_class(st: &mut Stats, k: &[u8]) {
     if k.len() > 60_000 { st.bump("key_enc_over_64k"); }
 }
 
+/// Drop the last handle of a database in a helper thread and wait for it: fjall 3.0.1's
+/// `DatabaseInner::drop` occasionally never returns (it keeps sending `Close` messages into a bounded
+/// channel nobody reads any more).  `false` = the close did not finish within 20 s (thread leaked).
+fn close_db<T: Send + 'static>(db: T) -> bool {
+    let (tx, rx) = std::sync::mpsc::channel::<()>();
+    std::thread::spawn(move || {
+        drop(db);
+        let _ = tx.send(());
+    });
+    rx.recv_timeout(std::time::Duration::from_secs(20)).is_ok()
+}
+
 fn run_case<D: Be>(seed: u64, case_ix: u64, tier: &str, out: &mut Out, st: &mut Stats) {
     let case_seed = seed.wrapping_mul(1_000_003).wrapping_add(case_ix);
     let (ops, with_dual) = gen_case::<D>(case_seed, tier);
@@ -760,14 +774,18 @@ fn run_case<D: Be>(seed: u64, case_ix: u64, tier: &str, out: &mut Out, st: &mut 
                 sbufs.clear();
                 pend_b.clear();
                 pend_s.clear();
-                db = None; // close first
+                if let Some(d) = db.take() {
+                    if !close_db(d) { st.bump("backend_close_hung_case_abandoned"); return; } // close first
+                }
                 db = Some(D::open_at(&dir));
                 "ok".into()
             }
             Act::Raw => {
                 batches.clear();
                 sbufs.clear();
-                db = None;
+                if let Some(d) = db.take() {
+                    if !close_db(d) { st.bump("backend_close_hung_case_abandoned"); return; }
+                }
                 let d = catch_unwind(AssertUnwindSafe(|| D::raw_dump(&dir))).unwrap_or_else(|_| "raw-panic".into());
                 db = Some(D::open_at(&dir));
                 st.bump_n("raw_entries_compared", d.matches('=').count() as u64);
@@ -965,7 +983,9 @@ fn run_case<D: Be>(seed: u64, case_ix: u64, tier: &str, out: &mut Out, st: &mut 
     if seen_prefix_related { st.bump("cases_with_prefix_related_set_keys"); }
     drop(batches);
     drop(sbufs);
-    drop(db);
+    if let Some(d) = db.take() {
+        if !close_db(d) { st.bump("backend_close_hung_case_abandoned"); return; }
+    }
     let _ = std::fs::remove_dir_all(&dir);
 }
 
@@ -1028,7 +1048,7 @@ fn atomic_probe<D: Be>(seed: u64, want_reads: u64, st: &mut Stats) {
     for d in bad {
         st.failures.push((format!("{}:batch-not-atomic", D::TAG), d, format!("kv seed={seed} atomic-probe backend={}", D::TAG)));
     }
-    drop(db);
+    if !close_db(db) { st.bump("backend_close_hung_case_abandoned"); return; }
     let _ = std::fs::remove_dir_all(&dir);
 }
 
